@@ -235,6 +235,10 @@ def run_part_shard(module_name: str, part_name: str, tier: str, seed: int, shard
         res["derived_seed"] = dseed
 
         def run_one(case):
+            if ctx.evaluations % 25 == 24:
+                import gc
+
+                gc.collect()
             if ctx.out_of_time():
                 ctx.skipped_budget += 1
                 return
